@@ -469,6 +469,7 @@ theorem ginv_stepCore {s : S} (h : GInv s) (op : Op) : GInv (stepCore s op) := b
       split
       · exact ginv_exit h a
       · exact h
+  | handleAt a act d => exact ginv_frame (ginv_handle h a act) rfl rfl rfl
 
 theorem ginv_resolveLocal {s : S} (h : GInv s) : GInv (resolveLocal s) :=
   ginv_map h (resolveCall s.now) rfl rfl rfl (rel_resolveCall s.now)
